@@ -618,3 +618,7 @@ def check(run, replay=None):
     run.require_counter("values_compared", 1000)
     run.require_counter("thread_runs", 10)
     run.require_counter("sched_determinism_comparisons", 20)
+
+
+# workloads added in seeding rounds 7-10 (DESIGN.md sections 13.9-13.12)
+LEVEL_TEXT = LEVEL_TEXT + ' Later additions: out= buffers held as transposed views / table columns / float32 (refused or filled).'
